@@ -96,6 +96,8 @@ type c10Case struct {
 	Session bool   `json:"session,omitempty"`
 	// exec/hist: the rule-level config carries another (harmless) option, so WithConfig runs even without a rule-level ttl
 	RuleOther bool `json:"rule_other,omitempty"`
+	// exec cc: through the real oauth2_client_credentials finalizer (prototype + rule-level cache_ttl) instead of Config.Token
+	ViaFin bool `json:"via_finalizer,omitempty"`
 
 	// http / cache / hist
 	Backend string   `json:"backend,omitempty"` // mem | redis
@@ -245,7 +247,9 @@ type env struct {
 	rds  *backend // shared redis backend (miniredis), flushed per case
 	// Cache-Control header the /cc/ endpoint answers with, per path (set by the driver before each request)
 	ccTab sync.Map
-	palH  []int64 // http_cache.default_ttl palette of the ctxhttp prototypes
+	// expires_in the token endpoint answers with for the client ids of the oauth2_client_credentials finalizer prototypes
+	tokTab sync.Map
+	palH   []int64 // http_cache.default_ttl palette of the ctxhttp prototypes
 }
 
 func newEnv(t *testing.T) *env {
@@ -322,12 +326,21 @@ func newEnv(t *testing.T) *env {
 	// token endpoint: client id C.<expires_in|none>.<n>
 	mux.HandleFunc("/token", func(w http.ResponseWriter, r *http.Request) {
 		id, _, _ := r.BasicAuth()
+		if id == "" {
+			r.ParseForm()
+			id = r.PostForm.Get("client_id")
+		}
+
 		parts := strings.Split(id, ".")
 		w.Header().Set("Content-Type", "application/json")
 
 		exp := ""
 		if len(parts) == 3 && parts[1] != "none" {
 			exp = `,"expires_in":` + parts[1]
+		}
+
+		if v, ok := e.tokTab.Load(id); ok && v.(string) != "none" { //nolint:forcetypeassert
+			exp = `,"expires_in":` + v.(string) //nolint:forcetypeassert
 		}
 
 		fmt.Fprintf(w, `{"access_token":"at-%d","token_type":"Bearer"%s}`, e.ctr.Add(1), exp)
@@ -415,6 +428,13 @@ func newEnv(t *testing.T) *env {
 				"endpoint":  map[string]any{"url": e.srv.URL + "/cc/{{ .Subject.ID }}", "method": "GET", "http_cache": hc},
 				"cache_ttl": "0s",
 			}})
+	}
+
+	for i, v := range e.pal {
+		protos.Finalizers = append(protos.Finalizers,
+			config.Mechanism{ID: fmt.Sprintf("ccfin_%d", i), Type: "oauth2_client_credentials", Config: withTTL(config.MechanismConfig{
+				"token_url": e.srv.URL + "/token", "client_id": fmt.Sprintf("ccfin-%d", i), "client_secret": "s",
+			}, "cache_ttl", v)})
 	}
 
 	for i, v := range e.palF {
@@ -702,6 +722,7 @@ var otherOption = map[string][2]any{
 	"remote":  {"forward_response_headers_to_upstream", []any{"X-C10"}},
 	"ctx":     {"forward_headers", []any{"X-C10"}},
 	"jwtfin":  {"claims", `{"c10":"x"}`},
+	"cc":      {"scopes", []any{"a"}},
 }
 
 func (c *c10Case) ruleConf(key string) config.MechanismConfig {
@@ -819,6 +840,18 @@ func (e *env) execOnce(ctx context.Context, c *c10Case, key int, exp *int64) (st
 
 		return "", p64(claims.Exp), nil
 	case "cc":
+		if c.ViaFin {
+			i := palIndex(e.pal, c.Conf)
+			e.tokTab.Store(fmt.Sprintf("ccfin-%d", i), expS)
+
+			a, err := e.mf.CreateFinalizer("1alpha4", fmt.Sprintf("ccfin_%d", i), c.ruleConf("cache_ttl"))
+			if err != nil {
+				return "", nil, err
+			}
+
+			return errText(a.Execute(newReq(ctx, nil), sub)), nil, nil
+		}
+
 		cfg := &clientcredentials.Config{
 			TokenURL: e.srv.URL + "/token", ClientID: fmt.Sprintf("C.%s.k%d", expS, key), ClientSecret: "s", TTL: dur(c.Conf),
 		}
@@ -1436,6 +1469,14 @@ func (e *env) genExec(r *vf.Rand) c10Case {
 		return c
 	case "cc":
 		c.Conf = vf.Pick(r, pal)
+
+		if c.ViaFin = r.Chance(50); c.ViaFin {
+			c.RuleOther = r.Chance(30)
+			if r.Chance(55) {
+				c.Rule = vf.Pick(r, pal[1:])
+			}
+		}
+
 		if r.Chance(85) {
 			c.Delta = p64(vf.Pick(r, []int64{1, 3, 4, 5, 6, 7, 10, 60, 299, 300, 305, 306, 3600}) * sec)
 		}
@@ -1638,7 +1679,8 @@ func (e *env) genHist(r *vf.Rand, backend string) c10Case {
 	return c
 }
 
-// ---------------------------------------------------------------- corpus (finding witnesses first)
+// ---------------------------------------------------------------- corpus (witnesses of the repaired findings first:
+// C10-F1 -> 637ae67, C10-F2 -> c971513, C10-F3 -> e0dc5e2; reverting a commit makes its witnesses fail)
 
 func corpus() []c10Case {
 	maxAge0 := &c10Resp{Method: "GET", Status: 200, CC: "max-age=0", Date: p64(0)}
@@ -1657,6 +1699,9 @@ func corpus() []c10Case {
 		{Kind: "exec", Mech: "intro", Conf: p64(300 * sec), Delta: p64(5)},
 		{Kind: "exec", Mech: "jwtkey", Conf: nil, Delta: p64(5)},
 		{Kind: "exec", Mech: "cc", Conf: p64(300 * sec), Delta: p64(3 * sec)},
+		{Kind: "exec", Mech: "cc", ViaFin: true, Conf: p64(300 * sec), Delta: p64(3 * sec)},
+		{Kind: "exec", Mech: "cc", ViaFin: true, Conf: p64(300 * sec), Rule: p64(0), Delta: p64(60 * sec)},
+		{Kind: "exec", Mech: "cc", ViaFin: true, Conf: p64(0), Rule: p64(30 * sec), Delta: p64(60 * sec)},
 		// C10-F2: max-age=0 / past Expires handed to the in-memory cache => kept for ever
 		{Kind: "http", Backend: "mem", Resp: maxAge0},
 		{Kind: "http", Backend: "mem", Resp: pastExp},
